@@ -216,6 +216,7 @@ package input
 // B = v.version (with its leading "v"), V = *i.Version (without): truth table of the property.
 //@ func (*VersionValidator).ValidateVersion
 //@   property C18
+//@   reports_all
 //@   requires [version_type_invariant] i.Version != nil ==> svValid("v" + string(*i.Version))
 //@   requires [validator_invariant] v.valid ==> svValid(v.version)
 //@   ensures [skipped] (i.Version == nil || !v.valid) ==> err == nil
@@ -345,6 +346,7 @@ package input
 
 //@ func ValidateParams pure
 //@   property C11
+//@   reports_all
 //@   ensures [accept_sound @a] result == nil ==> (forall n string :: n in i.Params ==> matches(n, regexParamName) && types.IsPrimitive(i.Params[n]))
 //@   ensures [accept_complete @b] (forall n string :: n in i.Params ==> matches(n, regexParamName) && types.IsPrimitive(i.Params[n])) ==> result == nil
 //@   loop 1
@@ -354,16 +356,20 @@ package input
 
 //@ func ValidateMetaPkg pure
 //@   property C11
+//@   reports_all
 //@   ensures [accept_iff] (result == nil) <==> (m.Pkg == nil || matches(*m.Pkg, regexpMetaPkg))
 //@ func ValidateMetaContainerType pure
 //@   property C11
+//@   reports_all
 //@   ensures [accept_iff] (result == nil) <==> (m.ContainerType == nil || matches(*m.ContainerType, regexpMetaContainerType))
 //@ func ValidateMetaContainerConstructor pure
 //@   property C11
+//@   reports_all
 //@   ensures [accept_iff] (result == nil) <==> (m.ContainerConstructor == nil || matches(*m.ContainerConstructor, regexpMetaContainerConstructor))
 
 //@ func ValidateMetaImports pure
 //@   property C11 C14
+//@   reports_all
 //@   ensures [accept_sound @a] result == nil ==> (forall a string :: a in m.Imports ==> matches(a, regexMetaImportAlias) && matches(m.Imports[a], regexMetaImport))
 //@   ensures [accept_complete @b] (forall a string :: a in m.Imports ==> matches(a, regexMetaImportAlias) && matches(m.Imports[a], regexMetaImport)) ==> result == nil
 //@   loop 1
@@ -373,6 +379,7 @@ package input
 
 //@ func ValidateMetaFunctions pure
 //@   property C11
+//@   reports_all
 //@   ensures [accept_sound @a] result == nil ==> (forall f string :: f in m.Functions ==> matches(f, regexMetaFn) && matches(m.Functions[f], regexMetaGoFn))
 //@   ensures [accept_complete @b] (forall f string :: f in m.Functions ==> matches(f, regexMetaFn) && matches(m.Functions[f], regexMetaGoFn)) ==> result == nil
 //@   loop 1
@@ -386,33 +393,40 @@ package input
 
 //@ func ValidateServiceName pure
 //@   property C11
+//@   reports_all
 //@   ensures [accept_iff] (result == nil) <==> matches(n, regexServiceName)
 
 // creation-method rules: something must create the service; constructor and value exclude each other; arguments need a constructor
 //@ func ValidateConstructorType pure
 //@   property C11
+//@   reports_all
 //@   ensures [accept_iff] (result == nil) <==>
 //@        (!(s.Constructor == nil && s.Value == nil && s.Type == nil) && !(s.Constructor != nil && s.Value != nil) && !(len(s.Args) > 0 && s.Constructor == nil))
 
 // getter: not a method of the embedded container, no "Must" prefix, no "InContext" suffix, a Go identifier (C13, C11)
 //@ func ValidateServiceGetter pure
 //@   property C11 C13
+//@   reports_all
 //@   ensures [accept_iff] (result == nil) <==> (s.Getter == nil ||
 //@        (!isMethodOf(*s.Getter, "github.com/gontainer/gontainer-helpers/v3/container.Container") && *s.Getter != "Container"
 //@         && !hasPrefix(*s.Getter, "Must") && !hasSuffix(*s.Getter, "InContext") && matches(*s.Getter, regexServiceGetter)))
 
 //@ func ValidateServiceType pure
 //@   property C11
+//@   reports_all
 //@   ensures [accept_iff] (result == nil) <==> (s.Type == nil || matches(*s.Type, regexServiceType))
 //@ func ValidateServiceValue pure
 //@   property C11
+//@   reports_all
 //@   ensures [accept_iff] (result == nil) <==> (s.Value == nil || matches(*s.Value, regexServiceValue))
 //@ func ValidateServiceConstructor pure
 //@   property C11
+//@   reports_all
 //@   ensures [accept_iff] (result == nil) <==> (s.Constructor == nil || matches(*s.Constructor, regexServiceConstructor))
 
 //@ func ValidateServiceArgs pure
 //@   property C11
+//@   reports_all
 //@   ensures [accept_sound @a] result == nil ==> (forall j int :: 0 <= j && j < len(s.Args) ==> types.IsPrimitive(s.Args[j]))
 //@   ensures [accept_complete @b] (forall j int :: 0 <= j && j < len(s.Args) ==> types.IsPrimitive(s.Args[j])) ==> result == nil
 //@   loop 1
@@ -426,6 +440,7 @@ package input
 
 //@ func ValidateServiceCalls pure
 //@   property C11
+//@   reports_all
 //@   ensures [accept_sound @a] result == nil ==> (forall c int :: 0 <= c && c < len(s.Calls) ==> callOK(s.Calls[c]))
 //@   ensures [accept_complete @b] (forall c int :: 0 <= c && c < len(s.Calls) ==> callOK(s.Calls[c])) ==> result == nil
 //@   loop 1
@@ -438,6 +453,7 @@ package input
 
 //@ func ValidateServiceFields pure
 //@   property C11
+//@   reports_all
 //@   ensures [accept_sound @a] result == nil ==> (forall n string :: n in s.Fields ==> matches(n, regexServiceFieldName) && types.IsPrimitive(s.Fields[n]))
 //@   ensures [accept_complete @b] (forall n string :: n in s.Fields ==> matches(n, regexServiceFieldName) && types.IsPrimitive(s.Fields[n])) ==> result == nil
 //@   loop 1
@@ -453,6 +469,7 @@ package input
 // tags: every name matches the grammar and no name occurs twice
 //@ func ValidateServiceTags pure
 //@   property C11 C04
+//@   reports_all
 //@   ensures [accept_sound_names @a] result == nil ==> (forall j int :: 0 <= j && j < len(s.Tags) ==> matches(s.Tags[j].Name, regexServiceTag))
 //@   ensures [accept_sound_unique @a] result == nil ==> (forall n string :: occ(s.Tags, n, len(s.Tags)) <= 1)
 //@   ensures [accept_complete @b] (forall j int :: 0 <= j && j < len(s.Tags) ==> matches(s.Tags[j].Name, regexServiceTag))
@@ -484,6 +501,7 @@ package input
 // acceptance also means: no two services that get getter methods share a getter (C13: generated methods never collide)
 //@ func ValidateServices pure
 //@   property C11 C15 C13
+//@   reports_all
 //@   ensures [accept_sound @a] result == nil ==> (forall n string :: n in i.Services ==> svcOK(n, i.Services[n]))
 //@   ensures [accept_sound_unique_getters @u] result == nil ==> (forall a int, b int :: 0 <= a && a < b && b < len(maps.Keys(i.Services)) && hasGetter(svcAt(i, a)) && hasGetter(svcAt(i, b)) ==> *svcAt(i, a).Getter != *svcAt(i, b).Getter)
 //@   ensures [accept_complete @b] (forall n string :: n in i.Services ==> svcOK(n, i.Services[n])) && (forall a int, b int :: 0 <= a && a < b && b < len(maps.Keys(i.Services)) && hasGetter(svcAt(i, a)) && hasGetter(svcAt(i, b)) ==> *svcAt(i, a).Getter != *svcAt(i, b).Getter) ==> result == nil
@@ -509,12 +527,15 @@ package input
 
 //@ func ValidateDecoratorTag pure
 //@   property C11 C04
+//@   reports_all
 //@   ensures [accept_iff] (result == nil) <==> matches(d.Tag, regexDecoratorsTag)
 //@ func ValidateDecoratorMethod pure
 //@   property C11
+//@   reports_all
 //@   ensures [accept_iff] (result == nil) <==> matches(d.Decorator, regexDecoratorMethod)
 //@ func ValidateDecoratorArgs pure
 //@   property C11
+//@   reports_all
 //@   ensures [accept_sound @a] result == nil ==> (forall j int :: 0 <= j && j < len(d.Args) ==> types.IsPrimitive(d.Args[j]))
 //@   ensures [accept_complete @b] (forall j int :: 0 <= j && j < len(d.Args) ==> types.IsPrimitive(d.Args[j])) ==> result == nil
 //@   loop 1
@@ -526,6 +547,7 @@ package input
 
 //@ func ValidateDecorators pure
 //@   property C11 C04
+//@   reports_all
 //@   ensures [accept_sound @a] result == nil ==> (forall j int :: 0 <= j && j < len(i.Decorators) ==> decOK(i.Decorators[j]))
 //@   ensures [accept_complete @b] (forall j int :: 0 <= j && j < len(i.Decorators) ==> decOK(i.Decorators[j])) ==> result == nil
 //@   loop 1
@@ -534,6 +556,7 @@ package input
 
 //@ func ValidateMeta pure
 //@   property C11
+//@   reports_all
 //@   ensures [accept_iff] (result == nil) <==> (ValidateMetaPkg(i.Meta) == nil && ValidateMetaContainerType(i.Meta) == nil
 //@        && ValidateMetaContainerConstructor(i.Meta) == nil && ValidateMetaImports(i.Meta) == nil && ValidateMetaFunctions(i.Meta) == nil)
 //@   loop 1
@@ -547,6 +570,7 @@ package input
 // Validator.Validate: every configured validator runs and the input is accepted iff all of them accept it (no masking).
 //@ func (Validator).Validate
 //@   property C11
+//@   reports_all
 //@   ensures [accept_sound @a] result == nil ==> (forall j int :: 0 <= j && j < len(v.validators) ==> apply(v.validators[j], m) == nil)
 //@   ensures [accept_complete @b] (forall j int :: 0 <= j && j < len(v.validators) ==> apply(v.validators[j], m) == nil) ==> result == nil
 //@   loop 1
